@@ -139,6 +139,7 @@ fn both(g: &Guarded, is_req: bool, input: &[u8]) -> String {
 }
 
 pub fn run_parse(case: &str) -> String {
+    crate::util::note_current(case);
     let g = Guarded::new(1 << 20);
     let input = unhex(&case[1..]);
     both(&g, case.starts_with('Q'), &input)
@@ -162,6 +163,7 @@ fn verdicts(g: &Guarded, is_req: bool, input: &[u8]) -> String {
 }
 
 pub fn run_prefix(case: &str) -> String {
+    crate::util::note_current(case);
     let g = Guarded::new(1 << 20);
     let input = unhex(&case[1..]);
     verdicts(&g, case.starts_with('Q'), &input)
@@ -358,6 +360,7 @@ pub fn gen_prefix(ctx: &Ctx) {
 }
 
 pub fn run_grammar(case: &str) -> String {
+    crate::util::note_current(case);
     let bytes = unhex(case.rsplit(' ').next().unwrap());
     let g = Guarded::new(1 << 20);
     both(&g, true, &bytes)
